@@ -56,6 +56,12 @@ ASSUMPTIONS = [
     "Jacobian sources: the Rust reference uses the source PyLayer's JacSourceContract names for the combination (user Jacobian when jac is "
     "given -- whatever pattern is passed next to it, also a deliberately narrower diagonal-only one; else the default finite differences); "
     "a dense 0/1 ndarray as jac_sparsity is not accepted by the binding (AttributeError, see notes) and is not part of the combinations",
+    "sol at step ends: in every dense case sol is also evaluated at every reported time res.t[k] (the accepted step ends when there is no "
+    "t_eval; scalar calls and one ndarray call) and compared token for token with Solution::sol(t_k) of the Rust run (where it answers)",
+    "jac return containers: problem 'switch' (two Jacobian entries +-150 while y[2] > 0.5, exactly 0.0 afterwards; the comparison y[2] > 0.5 "
+    "is the only operation besides +, -, *) with the callable jac returning scipy csc / csr / coo matrices built from the dense matrix (zeros "
+    "not stored; also csc with eliminate_zeros()) or duck-typed containers (tocoo + toarray, toarray only); Trace_Py demands that at least two "
+    "different stored patterns were returned during the run (measured by the driver)",
     "TLC and the CommunityModules Json/IOUtils modules are trusted; scipy is not used",
 ]
 
@@ -151,7 +157,9 @@ def _case_meta(c):
             "problem": c["problem"], "n": c["n"], "jac": c["jac"], "has_sparsity": c["has_sparsity"],
             "pat": {"n": c["pat"]["n"], "rows": c["pat"]["rows"], "groups": c["pat"]["groups"], "ngroups": c["pat"]["ngroups"]},
             "dense": c["dense"], "probes": c["probes"], "probes_out": c["probes_out"], "nevents": len(c["events"]),
-            "use_args": c["use_args"], "params": c["params"], "doc": c["doc"], "probe_empty": c.get("probe_empty", False)}
+            "use_args": c["use_args"], "params": c["params"], "doc": c["doc"], "probe_empty": c.get("probe_empty", False),
+            "probe_steps": c.get("probe_steps", False), "want_pattern_change": c.get("want_pattern_change", False),
+            "has_t_eval": c["has_t_eval"]}
 
 
 def run_both(work, moddir, cases, tag):
@@ -205,7 +213,8 @@ def validate(work, merged, tag):
             raise vlib.ToolError(f"trace chunk {k}: depth {r.depth} != lines+1 {len(ch) + 1}")
         bad = printed_values(r.out, "INADEQUATE")
         if bad:
-            raise vlib.ToolError(f"event-list scenario without crossings in both directions for every event function: {bad[:2]}")
+            raise vlib.ToolError(f"inadequate scenario (event list without crossings in both directions for every event function, or a "
+                                 f"sparse jac return whose stored pattern never changed): {bad[:2]}")
         viol += printed_values(r.out, "VIOL")
         drift += printed_values(r.out, "DRIFT")
         cover += printed_values(r.out, "COVER")
@@ -261,7 +270,7 @@ def run(tier, seed, replay, keep):
             raise vlib.ToolError(f"TLC failed on MC_PyLayer: {r.error}")
         scen = [_replay_payload(line) for line in r.lines("REPLAY")]
         kinds = collections.Counter(s["kind"] for s in scen)
-        if not scen or not kinds.get("pattern") or not kinds.get("shape") or not kinds.get("method") or not kinds.get("evlist") or not kinds.get("jacsrc"):
+        if not scen or not kinds.get("pattern") or not kinds.get("shape") or not kinds.get("method") or not kinds.get("evlist") or not kinds.get("jacsrc") or not kinds.get("solseg") or not kinds.get("jacret"):
             raise vlib.ToolError("MC_PyLayer produced no / incomplete REPLAY lines")
         scen.sort(key=lambda s: json.dumps(s, sort_keys=True))
         sfile = os.path.join(work, "scen.json")
@@ -323,9 +332,15 @@ def run(tier, seed, replay, keep):
             "y_shapes_observed": len(shapes), "y_shapes_small": [f"{a}x{b}" for (a, b) in shapes if b <= 4],
             "notes": NOTES,
             "statuses_other_than_success": {k: v for k, v in cover_kinds.items()
-                                            if k not in ("both-fail", "event-found", "evlist-both-directions", "jac-with-pattern",
+                                            if k not in ("both-fail", "event-found", "evlist-both-directions", "jac-with-pattern", "sol-at-step-ends",
+                                                         "jac-sparse-return-pattern-changed",
                                                          "pattern-changed-evaluation-count")},
             "cases_with_event_found": cover_kinds.get("event-found", 0),
+            "sol_cases_probed_at_step_ends": cover_kinds.get("sol-at-step-ends", 0),
+            "sol_values_compared_at_reported_times": sum(len(m["r"].get("sol_steps", [])) for m in merged if m["r"]["ok"] and m["p"]["ok"]),
+            "jac_return_container_cases": dict(collections.Counter(m["p"].get("jac_container", "") or "ndarray" for m in merged
+                                                                   if m["c"]["class"] == "jac-return-container")),
+            "jac_return_cases_with_changing_stored_pattern": cover_kinds.get("jac-sparse-return-pattern-changed", 0),
             "jac_source_cases": {k: v for k, v in classes.items() if k.startswith("jac-source")},
             "jac_source_cases_jac_given_with_pattern": cover_kinds.get("jac-with-pattern", 0),
             "sparsity_cases_where_the_pattern_changed_the_evaluation_count": cover_kinds.get("pattern-changed-evaluation-count", 0),
